@@ -20,7 +20,7 @@ def edge_search(rng, tier):
 KEEP = cpucheck.fields("accesses", "NTRACE", "event")
 def run(tier, seed):
     return cpucheck.run(PROP, tier, seed, cpucheck.std_gen(None, per_quick=3, per_thorough=500), keep=KEEP,
-                        search_lines=edge_search,
+                        search_lines=cpucheck.join_gens(edge_search, cpucheck.sweep_gen()),
                         rule="all dispatch cases x structured random states; the complete ordered access log (reads, writes, port in/out with "
                              "addresses and values) of the real code vs the extracted generated model")
 def replay(path):
